@@ -379,6 +379,9 @@ func (in *Interp) Explore(st *State, stop int) {
 			now := st.effects()
 			for i := stop + 1; i < len(st.stack); i++ {
 				f := st.stack[i]
+				if f.goRoot {
+					break // frames of a running goroutine can be dropped by park: not a unit to summarise
+				}
 				if i >= 1 && !f.dirty && f.fx == now && !st.stack[0].initCall {
 					k = i
 					break
@@ -1105,7 +1108,17 @@ func (in *Interp) step(st *State) {
 	case *ssa.BinOp:
 		in.setReg(f, x, in.binop(st, x.Op, in.eval(st, f, x.X), in.eval(st, f, x.Y), x.X.Type(), x.Pos()))
 	case *ssa.UnOp:
-		in.setReg(f, x, in.unop(st, x, in.eval(st, f, x.X)))
+		a := in.eval(st, f, x.X)
+		if ch, ok := a.(ChanRef); ok && x.Op == token.ARROW {
+			v, blocked := in.chanRecv(st, x, ch)
+			if blocked != "" {
+				in.park(st, blocked, x.Pos())
+				return
+			}
+			in.setReg(f, x, v)
+			break
+		}
+		in.setReg(f, x, in.unop(st, x, a))
 	case *ssa.ChangeType:
 		in.setReg(f, x, in.eval(st, f, x.X))
 	case *ssa.ChangeInterface:
@@ -1176,7 +1189,7 @@ func (in *Interp) step(st *State) {
 		id := st.alloc(MapData{}, "map")
 		in.setReg(f, x, MapRef{Obj: id})
 	case *ssa.MakeChan:
-		in.setReg(f, x, Poison{"chan"})
+		in.setReg(f, x, ChanRef{Obj: st.alloc(ChanData{}, "chan")})
 	case *ssa.MapUpdate:
 		mv := in.eval(st, f, x.Map)
 		mr, ok := mv.(MapRef)
@@ -1259,21 +1272,79 @@ func (in *Interp) step(st *State) {
 		in.goPanic(st, "explicit panic: "+in.describePanic(st, v), x.Pos(), v)
 	case *ssa.Call:
 		fn, args := in.prepareCall(st, f, &x.Call)
+		if c, ok := fn.(Closure); ok && c.Fn != nil && c.Fn.Name() == "RunGoroutines" && c.Fn.Pkg != nil && strings.HasSuffix(c.Fn.Pkg.Pkg.Path(), "/internal/vnd") {
+			if in.runGoroutines(st, x.Pos()) {
+				f.pc++
+			}
+			return
+		}
 		in.callValue(st, x, fn, args, x.Pos(), true, nil)
 		return
 	case *ssa.Go:
+		// the goroutine does not run here: it is remembered (callee and arguments
+		// evaluated now, as Go does) and runs when the harness calls vnd.RunGoroutines
+		fn, args := in.prepareCall(st, f, &x.Call)
 		st.events = append(st.events, "go "+x.Call.String())
+		st.goroutines = append(append([]goroutine(nil), st.goroutines...), goroutine{fn: fn, args: args, desc: x.Call.String()})
 	case *ssa.Range:
 		in.setReg(f, x, in.rangeStart(st, in.eval(st, f, x.X)))
 	case *ssa.Next:
 		in.setReg(f, x, in.rangeNext(st, x, in.eval(st, f, x.Iter)))
 	case *ssa.DebugRef:
-	case *ssa.Select, *ssa.Send:
+	case *ssa.Send:
+		cv := in.eval(st, f, x.Chan)
+		ch, ok := cv.(ChanRef)
+		if !ok {
+			panic(endPath{kind: "unsupported", msg: fmt.Sprintf("send on %T", cv), pos: x.Pos()})
+		}
+		st.events = append(st.events, "chan send")
+		if ch.Nil {
+			in.park(st, "send on nil channel", x.Pos())
+			return
+		}
+		cd := st.heap[ch.Obj].Cell.(ChanData)
+		if cd.Closed {
+			in.goPanic(st, "send on closed channel", x.Pos(), nil)
+		}
+		st.setCell(ch.Obj, ChanData{Q: append(append([]Value(nil), cd.Q...), in.eval(st, f, x.X)), Closed: false})
+	case *ssa.Select:
 		panic(endPath{kind: "unsupported", msg: fmt.Sprintf("instruction %T", ins), pos: ins.Pos()})
 	default:
 		panic(endPath{kind: "unsupported", msg: fmt.Sprintf("instruction %T", ins), pos: ins.Pos()})
 	}
 	f.pc++
+}
+
+// park: the running goroutine blocks forever. Its frames are dropped (deferred
+// calls do not run, as for a goroutine that never resumes) and control goes
+// back to the vnd.RunGoroutines call that started it.
+func (in *Interp) park(st *State, why string, pos token.Pos) {
+	for i := len(st.stack) - 1; i >= 1; i-- {
+		if st.stack[i].goRoot {
+			st.events = append(st.events, "goroutine parked: "+why)
+			st.stack = st.stack[:i]
+			return
+		}
+	}
+	panic(endPath{kind: "unsupported", msg: why + ": blocks forever outside a goroutine started by vnd.RunGoroutines", pos: pos})
+}
+
+// runGoroutines implements vnd.RunGoroutines: while go statements are pending,
+// run the oldest one to completion (or until it blocks); the call instruction is
+// re-executed until none is left. Returns true once nothing is pending.
+func (in *Interp) runGoroutines(st *State, pos token.Pos) bool {
+	if len(st.goroutines) == 0 {
+		return true
+	}
+	g := st.goroutines[0]
+	st.goroutines = append([]goroutine(nil), st.goroutines[1:]...)
+	st.events = append(st.events, "run "+g.desc)
+	depth := len(st.stack)
+	in.callValue(st, nil, g.fn, g.args, pos, false, nil)
+	if len(st.stack) > depth {
+		st.top().goRoot = true
+	}
+	return false
 }
 
 func (in *Interp) describePanic(st *State, v Value) string {
